@@ -8,8 +8,9 @@ Atomic steps are the sections executed under the scan lock (a polling scan, a
 transition, which runs with the lock released, and of other programs), and the
 delivery of the poll signal. The disk is a content identifier (equal
 identifiers = equal content, so a modification can *reverse* an earlier one);
-`ver` is a ghost counter of disk changes, and a snapshot remembers the `ver`
-at which it was taken.
+`hist` is the ghost history of the disk (newest first), `ver = hist.length` is
+the number of disk changes so far, and a snapshot remembers the `ver` at which
+it was taken.
 
 `repaired = true` is the behaviour with fixes/C42.patch: the polling scan
 compares with the most recent snapshot recorded by *any* scan (and ignores
@@ -28,7 +29,8 @@ structure St where
   /-- `accelerationAllowed` (scan mode "accelerated"). -/
   allowed : Bool
   disk : Nat
-  ver : Nat
+  /-- ghost: earlier disk contents, newest first (`ver = hist.length`). -/
+  hist : List Nat
   accelerate : Bool
   /-- `e.snapshot`. -/
   snapshot : Option Snap
@@ -43,32 +45,50 @@ structure St where
   pending : Bool
   /-- ghost: what the last `Scan` returned. -/
   view : Option Snap
-  /-- ghost: a strobe was issued since the last `Scan` returned. -/
+  /-- ghost: a strobe was issued / a signal was delivered since the last `Scan`
+  returned. -/
   strobed : Bool
+  consumed : Bool
   /-- ghost: `ver` when the last changing transition ended. -/
   tver : Nat
   deriving DecidableEq, Repr
 
+def St.ver (s : St) : Nat := s.hist.length
+
+/-- Content of the disk at version `v` (`none` for versions yet to come). -/
+def St.contentAt (s : St) (v : Nat) : Option Nat := (s.disk :: s.hist).reverse[v]?
+
 def init (repaired allowed : Bool) (disk : Nat) : St :=
-  { repaired := repaired, allowed := allowed, disk := disk, ver := 0, accelerate := false, snapshot := none,
+  { repaired := repaired, allowed := allowed, disk := disk, hist := [], accelerate := false, snapshot := none,
     first := true, previous := 0, trans := none, sinceTrans := false, pending := false,
-    view := none, strobed := false, tver := 0 }
+    view := none, strobed := false, consumed := false, tver := 0 }
 
 def strobe (s : St) : St := { s with pending := true, strobed := true }
 
+def setDisk (s : St) (c : Nat) : St := { s with disk := c, hist := s.disk :: s.hist }
+
+/-- The content a polling scan compares its result with. -/
+def tickBaseline (s : St) : Nat :=
+  if s.repaired then
+    match s.snapshot with
+    | some sn => sn.content
+    | none => s.previous
+  else s.previous
+
+/-- Whether a polling scan ignores modifications (first iteration: the baseline
+is zero-valued). -/
+def tickIgnore (s : St) : Bool :=
+  if s.repaired then
+    match s.snapshot with
+    | some _ => false
+    | none => s.first
+  else s.first
+
 /-- One iteration of the polling loop (the timer fired, or the first pass). -/
 def tick (s : St) : St :=
-  -- baseline and whether modifications are ignored
-  let ignore0 := s.first
-  let (baseline, ignore) :=
-    if s.repaired then
-      match s.snapshot with
-      | some sn => (sn.content, false)
-      | none => (s.previous, ignore0)
-    else (s.previous, ignore0)
   -- e.accelerate = false; e.scan(...); e.accelerate = e.accelerationAllowed
   let s1 := { s with first := false, snapshot := some ⟨s.disk, s.ver⟩, accelerate := s.allowed, previous := s.disk }
-  if s.disk ≠ baseline ∧ ¬ ignore then strobe s1 else s1
+  if s.disk ≠ tickBaseline s ∧ tickIgnore s = false then strobe s1 else s1
 
 /-- `Scan(full)`: returns the snapshot handed to the controller. -/
 def scan (s : St) (full : Bool) : St × Snap :=
@@ -76,7 +96,7 @@ def scan (s : St) (full : Bool) : St × Snap :=
     if s.accelerate ∧ ¬ full then s   -- poll mode: re-use the existing snapshot
     else { s with snapshot := some ⟨s.disk, s.ver⟩ }
   let sn := s1.snapshot.getD ⟨s.disk, s.ver⟩
-  ({ s1 with sinceTrans := true, view := some sn, strobed := false }, sn)
+  ({ s1 with sinceTrans := true, view := some sn, strobed := false, consumed := false }, sn)
 
 /-- First locked half of `Transition`: the guards. -/
 def transBegin (s : St) (target : Nat) : Option St :=
@@ -87,7 +107,7 @@ def transBegin (s : St) (target : Nat) : Option St :=
 /-- The transition's disk mutation (lock released). -/
 def transApply (s : St) : Option St :=
   match s.trans with
-  | some (target, false) => some { s with disk := target, ver := s.ver + 1, trans := some (target, true) }
+  | some (target, false) => some { setDisk s target with trans := some (target, true) }
   | _ => none
 
 /-- Second locked half: acceleration is switched off and the poll signal is
@@ -102,10 +122,11 @@ def transEnd (s : St) : Option (St × Bool) :=
   | none => none
 
 /-- Another program modifies the root. -/
-def edit (s : St) (c : Nat) : St := { s with disk := c, ver := s.ver + 1 }
+def edit (s : St) (c : Nat) : St := setDisk s c
 
 /-- `Poll` returns: the signal is consumed. -/
-def pollReturn (s : St) : Option St := if s.pending then some { s with pending := false } else none
+def pollReturn (s : St) : Option St :=
+  if s.pending then some { s with pending := false, consumed := true } else none
 
 inductive Label
   | tick
@@ -127,5 +148,10 @@ inductive Step : St → Label → St → Prop
   | transEnd (s s' made) : transEnd s = some (s', made) → Step s (.transEnd made) s'
   | edit (s c) : Step s (.edit c) (edit s c)
   | poll (s s') : pollReturn s = some s' → Step s .poll s'
+
+/-- Runs: sequences of steps with their labels. -/
+inductive Run : St → List Label → St → Prop
+  | nil (s) : Run s [] s
+  | snoc {s tr s' l s''} : Run s tr s' → Step s' l s'' → Run s (tr ++ [l]) s''
 
 end Mutagen.Model.PollWatch
